@@ -136,7 +136,7 @@ PROPS['C16'] = dict(
 )
 
 PROPS['C08'] = dict(
-    bounded_quick=[('cursor', 'Node::spill and InnerBucket::merge_nodes / node (an Rc<RefCell<Node>> graph mutated through shared handles: outside both verifiers), Page::write_node (raw-pointer serialisation) beyond the bounded Kani codec; Node::split / write / free_page / NodeData::merge and InnerBucket::{rebalance, spill, page_node} ARE under contract (units split, nodeio, bucketcommit, overlay)')],
+    bounded_quick=[('cursor', 'Node::spill and InnerBucket::merge_nodes / node (an Rc<RefCell<Node>> graph mutated through shared handles: outside both verifiers), the payload bytes Page::write_node copies (bounded Kani codec); Node::split / write / free_page / NodeData::merge, Page::write_node (layout arithmetic, never fails) and InnerBucket::{rebalance, spill, page_node} ARE under contract (units split, nodeio, writenode, bucketcommit, overlay)')],
     level='proof',
     units=['range', 'cursor', 'pagenode', 'filters', 'bytes'],
     explanation='Ranges: Range::next is verified on its real body for a generic R: RangeBounds<&[u8]> (all nine combinations of included / excluded / unbounded) against the '
@@ -161,7 +161,7 @@ A_TREEIF = 'the tree a cursor walks is an abstract interface (prelude/cursor_tre
 A_ELEMS = 'element headers of mapped pages and their key bytes are stub views of the raw-pointer casts (U17/U18, Leaf/Branch key accessors); layout pinned by K1'
 
 PROPS['C07'] = dict(
-    bounded_quick=[('history', 'Node::spill and InnerBucket::merge_nodes / node (an Rc<RefCell<Node>> graph mutated through shared handles: outside both verifiers), Page::write_node (raw-pointer serialisation) beyond the bounded Kani codec; Node::split / write / free_page / NodeData::merge and InnerBucket::{rebalance, spill, page_node} ARE under contract (units split, nodeio, bucketcommit, overlay)'), ('cursor', 'Node::spill and InnerBucket::merge_nodes / node (an Rc<RefCell<Node>> graph mutated through shared handles: outside both verifiers), Page::write_node (raw-pointer serialisation) beyond the bounded Kani codec; Node::split / write / free_page / NodeData::merge and InnerBucket::{rebalance, spill, page_node} ARE under contract (units split, nodeio, bucketcommit, overlay)')],
+    bounded_quick=[('history', 'Node::spill and InnerBucket::merge_nodes / node (an Rc<RefCell<Node>> graph mutated through shared handles: outside both verifiers), the payload bytes Page::write_node copies (bounded Kani codec); Node::split / write / free_page / NodeData::merge, Page::write_node (layout arithmetic, never fails) and InnerBucket::{rebalance, spill, page_node} ARE under contract (units split, nodeio, writenode, bucketcommit, overlay)'), ('cursor', 'Node::spill and InnerBucket::merge_nodes / node (an Rc<RefCell<Node>> graph mutated through shared handles: outside both verifiers), the payload bytes Page::write_node copies (bounded Kani codec); Node::split / write / free_page / NodeData::merge, Page::write_node (layout arithmetic, never fails) and InnerBucket::{rebalance, spill, page_node} ARE under contract (units split, nodeio, writenode, bucketcommit, overlay)')],
     level='other',
     units=['pagenode', 'cursor', 'bucketops', 'range', 'filters', 'overlay', 'data'],
     explanation='A write transaction reads a MIXTURE of untouched mapped pages and modified in-memory nodes. Proved on the real bodies, for all node contents: '
@@ -177,7 +177,7 @@ PROPS['C07'] = dict(
 )
 
 PROPS['C05'] = dict(
-    bounded_quick=[('checker', 'stands in for TxInner::check when unit check is undecided (rewritten body): structurally damaged files must be rejected by DB::check()'), ('history', 'Node::spill and InnerBucket::merge_nodes / node (an Rc<RefCell<Node>> graph mutated through shared handles: outside both verifiers), Page::write_node (raw-pointer serialisation) beyond the bounded Kani codec; Node::split / write / free_page / NodeData::merge and InnerBucket::{rebalance, spill, page_node} ARE under contract (units split, nodeio, bucketcommit, overlay)')],
+    bounded_quick=[('checker', 'stands in for TxInner::check when unit check is undecided (rewritten body): structurally damaged files must be rejected by DB::check()'), ('history', 'Node::spill and InnerBucket::merge_nodes / node (an Rc<RefCell<Node>> graph mutated through shared handles: outside both verifiers), the payload bytes Page::write_node copies (bounded Kani codec); Node::split / write / free_page / NodeData::merge, Page::write_node (layout arithmetic, never fails) and InnerBucket::{rebalance, spill, page_node} ARE under contract (units split, nodeio, writenode, bucketcommit, overlay)')],
     level='proof',
     composition='the accounting part of INV (pending pages below the high-water mark, not free, pending once; live pages not free) is preserved by begin/end reader and commit: Verus lemma L2 (contracts/lemmas.vtmpl) under assumptions A1/A2',
     units=['freelist', 'commit', 'open', 'pagenode', 'lemmas', 'bucketops', 'nodeio', 'split', 'bucketcommit', 'check', 'writenode'],
@@ -199,7 +199,7 @@ PROPS['C05'] = dict(
     not_covered=['duplicated or leaked pages caused by Node::spill / merge_nodes (bounded: cex/history.rs + the VERIFIED DB::check after every commit; reproductions e9, e11)', 'key order across pages and separator bounds (E11 lived here; bounded only: TxInner::check looks at each page on its own)', 'completeness of TxInner::check (that it accepts every well-formed file); its soundness is proved in unit check'],
 )
 PROPS['C01'] = dict(
-    bounded_quick=[('history', 'Node::spill and InnerBucket::merge_nodes / node (an Rc<RefCell<Node>> graph mutated through shared handles: outside both verifiers), Page::write_node (raw-pointer serialisation) beyond the bounded Kani codec; Node::split / write / free_page / NodeData::merge and InnerBucket::{rebalance, spill, page_node} ARE under contract (units split, nodeio, bucketcommit, overlay)'), ('cursor', 'Node::spill and InnerBucket::merge_nodes / node (an Rc<RefCell<Node>> graph mutated through shared handles: outside both verifiers), Page::write_node (raw-pointer serialisation) beyond the bounded Kani codec; Node::split / write / free_page / NodeData::merge and InnerBucket::{rebalance, spill, page_node} ARE under contract (units split, nodeio, bucketcommit, overlay)')],
+    bounded_quick=[('history', 'Node::spill and InnerBucket::merge_nodes / node (an Rc<RefCell<Node>> graph mutated through shared handles: outside both verifiers), the payload bytes Page::write_node copies (bounded Kani codec); Node::split / write / free_page / NodeData::merge, Page::write_node (layout arithmetic, never fails) and InnerBucket::{rebalance, spill, page_node} ARE under contract (units split, nodeio, writenode, bucketcommit, overlay)'), ('cursor', 'Node::spill and InnerBucket::merge_nodes / node (an Rc<RefCell<Node>> graph mutated through shared handles: outside both verifiers), the payload bytes Page::write_node copies (bounded Kani codec); Node::split / write / free_page / NodeData::merge, Page::write_node (layout arithmetic, never fails) and InnerBucket::{rebalance, spill, page_node} ARE under contract (units split, nodeio, writenode, bucketcommit, overlay)')],
     level='other',
     units=['pagenode', 'cursor', 'range', 'guards', 'bucketops', 'bytes', 'split', 'bucketcommit', 'overlay', 'data', 'writenode'],
     kani_quick=['layout'],
